@@ -662,7 +662,7 @@ func (w *Wire) deliverLocked(b []byte, tag string, forTTL int) {
 		if w.script.Filter && h.filter != nil {
 			if !runFilter(h.filter, b) {
 				if id != 0 {
-					w.log("Filtered", "pkt", id, "h", h.id, "ftype", h.ftype)
+					w.log("Filtered", "pkt", id, "h", h.id, "run", h.run, "ftype", h.ftype)
 				}
 				continue
 			}
